@@ -4,6 +4,7 @@ from .facts import Operand, Place
 from .dataflow import IDENTITY
 
 RESULT_PRESERVING = {
+    "std::option::Option::<T>::map",
     "error::ErrorExt::wrap", "error::ErrorExt::with_wrap", "std::result::Result::<T, E>::map_err",
     "std::result::Result::<T, E>::map", "std::option::Option::<T>::ok_or_else", "std::option::Option::<T>::ok_or",
 }
@@ -47,11 +48,19 @@ def result_edges(body, term, max_steps=12):
             dop = Operand(t.raw["d"])
             if dop.place is not None and dop.place.is_local and dop.place.local == discr_local:
                 ok, err = [], []
-                for e in cfg.succ.get(bb, []) + [pe for pe in cfg.pruned_edges if pe.src == bb]:
+                alle = cfg.succ.get(bb, []) + [pe for pe in cfg.pruned_edges if pe.src == bb]
+                explicit = {e.label[1] for e in alle if isinstance(e.label, tuple) and e.label[1] != "otherwise"}
+                for e in alle:
                     if e.label == ("sw", 0):
                         ok.append(e)
                     elif e.label == ("sw", 1):
                         err.append(e)
+                    elif e.label == ("sw", "otherwise") and body.blocks[e.dst].term.kind != "unreachable":
+                        # two-variant enum matched with one explicit arm: otherwise = the other variant
+                        if explicit == {1}:
+                            ok.append(e)
+                        elif explicit == {0}:
+                            err.append(e)
                 # Option: None=0 (err), Some=1 (ok) when matched directly
                 rty = term.rty or ""
                 if kind == "match" and rty.startswith("std::option::Option"):
